@@ -129,4 +129,5 @@ func runRace(e *ev.Env) {
 		}
 		e.Nontrivial("race", c.ID, algo, strconv.Itoa(n), strconv.Itoa(max))
 	})
+	runRaceGC(e)
 }
